@@ -4793,6 +4793,61 @@ let mov_ok w i mn mx live code =
       (code_eqb code (mov_template sz sh d probe live (find_fn code)))
   | _ -> false
 
+type lins =
+| LLoadBudget
+| LCmpRax of z
+| LJbTerm
+| LDecRax
+| LStoreBudget
+
+(** val lins_eqb : lins -> lins -> bool **)
+
+let lins_eqb a b =
+  match a with
+  | LLoadBudget -> (match b with
+                    | LLoadBudget -> true
+                    | _ -> false)
+  | LCmpRax x -> (match b with
+                  | LCmpRax y -> Z.eqb x y
+                  | _ -> false)
+  | LJbTerm -> (match b with
+                | LJbTerm -> true
+                | _ -> false)
+  | LDecRax -> (match b with
+                | LDecRax -> true
+                | _ -> false)
+  | LStoreBudget -> (match b with
+                     | LStoreBudget -> true
+                     | _ -> false)
+
+(** val limit_ok : lins list -> bool **)
+
+let limit_ok = function
+| [] -> false
+| a :: l ->
+  (match l with
+   | [] -> false
+   | b :: l0 ->
+     (match l0 with
+      | [] -> false
+      | c :: l1 ->
+        (match l1 with
+         | [] -> false
+         | d :: l2 ->
+           (match l2 with
+            | [] -> false
+            | e :: l3 ->
+              (match l3 with
+               | [] ->
+                 (&&)
+                   ((&&)
+                     ((&&)
+                       ((&&) (lins_eqb a LLoadBudget)
+                         (lins_eqb b (LCmpRax (Zpos (XO XH)))))
+                       (lins_eqb c LJbTerm)) (lins_eqb d LDecRax))
+                   (lins_eqb e LStoreBudget)
+               | _ :: _ -> false)))))
+
 type kind =
 | KPrintIr
 | KPrintBc
